@@ -38,6 +38,56 @@ pub trait Sample: Sized + Clone + PartialEq + core::fmt::Debug {
     /// prior content #mode at index i
     fn prior(mode: u8, i: usize) -> Self;
     fn zeroed() -> Self;
+    /// the zeroized value of an element that held `prior` (differs from `zeroed()` only for types that keep part of their state)
+    fn zeroed_from(_prior: &Self) -> Self {
+        Self::zeroed()
+    }
+}
+
+/// one-byte element whose zeroized value is NOT 0x00
+#[derive(Clone, Debug, PartialEq)]
+pub struct Wipe1(u8);
+impl Zeroize for Wipe1 {
+    fn zeroize(&mut self) {
+        self.0 = 0x5A;
+    }
+}
+impl Sample for Wipe1 {
+    fn prior(mode: u8, i: usize) -> Self {
+        match mode { 0 => Wipe1(0xFF), 1 => Wipe1(i as u8 | 1), _ => Wipe1(0) }
+    }
+    fn zeroed() -> Self { Wipe1(0x5A) }
+}
+impl Sample for Option<bool> {
+    fn prior(mode: u8, i: usize) -> Self {
+        match mode { 0 => Some(true), 1 => if i % 2 == 0 { Some(false) } else { Some(true) }, _ => None }
+    }
+    fn zeroed() -> Self { None }
+}
+impl Sample for core::num::NonZeroU8 {
+    fn prior(mode: u8, i: usize) -> Self {
+        core::num::NonZeroU8::new(match mode { 0 => 0xFF, 1 => (i as u8) | 2, _ => 1 }).unwrap()
+    }
+    fn zeroed() -> Self { core::num::NonZeroU8::new(1).unwrap() }
+}
+/// element that keeps part of its state across zeroize (like a `#[zeroize(skip)]` field): its zeroized value depends on
+/// what it held before, so one element's zeroized value must never be copied into another
+#[derive(Clone, Debug, PartialEq)]
+pub struct Keep {
+    secret: u32,
+    tag: u8,
+}
+impl Zeroize for Keep {
+    fn zeroize(&mut self) {
+        self.secret = 0;
+    }
+}
+impl Sample for Keep {
+    fn prior(mode: u8, i: usize) -> Self {
+        match mode { 0 => Keep { secret: u32::MAX, tag: (i % 251) as u8 }, 1 => Keep { secret: i as u32 + 1, tag: (i * 7 % 256) as u8 }, _ => Keep { secret: 0, tag: (i % 3) as u8 } }
+    }
+    fn zeroed() -> Self { Keep { secret: 0, tag: 0 } }
+    fn zeroed_from(p: &Self) -> Self { Keep { secret: 0, tag: p.tag } }
 }
 impl Sample for u8 {
     fn prior(mode: u8, i: usize) -> Self {
@@ -60,6 +110,11 @@ impl Sample for [u8; 3] {
 impl Sample for GA<u8, U3> {
     fn prior(mode: u8, i: usize) -> Self { GA::from(<[u8; 3]>::prior(mode, i)) }
     fn zeroed() -> Self { GA::from([0u8; 3]) }
+}
+impl Sample for GA<Keep, U2> {
+    fn prior(mode: u8, i: usize) -> Self { GA::from([Keep::prior(mode, 2 * i), Keep::prior(mode, 2 * i + 1)]) }
+    fn zeroed() -> Self { GA::from([Keep::zeroed(), Keep::zeroed()]) }
+    fn zeroed_from(p: &Self) -> Self { GA::from([Keep::zeroed_from(&p[0]), Keep::zeroed_from(&p[1])]) }
 }
 impl Sample for Probe {
     fn prior(mode: u8, i: usize) -> Self {
@@ -88,8 +143,9 @@ macro_rules! zero_case {
         Zeroize::zeroize(&mut a);
         let mut r: Result<CaseInfo, String> = Ok(CaseInfo::new(n > 0, "zeroized"));
         for (i, e) in a.iter().enumerate() {
-            if *e != <$T as Sample>::zeroed() {
-                r = Err(format!("after zeroize() element {i} of {n} is {e:?}, its zeroized value is {:?}", <$T as Sample>::zeroed()));
+            let want = <$T as Sample>::zeroed_from(&<$T as Sample>::prior($mode, i));
+            if *e != want {
+                r = Err(format!("after zeroize() element {i} of {n} is {e:?}, its zeroized value is {want:?}"));
                 break;
             }
         }
@@ -142,6 +198,11 @@ pub fn run(ctx: &mut Ctx) {
         z!(GA<u8, U3>, "GA<u8,U3>");
         z!(Probe, "Probe");
         z!(Wipe7, "Wipe7");
+        z!(Wipe1, "Wipe1");
+        z!(Option<bool>, "Option<bool>");
+        z!(core::num::NonZeroU8, "NonZeroU8");
+        z!(Keep, "Keep");
+        z!(GA<Keep, U2>, "GA<Keep,U2>");
         macro_rules! cd {
             ($T:ty, $name:literal) => {{
                 // evaluated by the compiler's const evaluator
